@@ -174,8 +174,13 @@ class Interp(Engine):
             return self.invoke(f, [obj], {})
         v = r[1]
         if kind == "raw" and isinstance(v, __import__("functools").cached_property):
+            # functools.cached_property: computed on the first read and STORED IN THE INSTANCE __dict__ under the attribute's name (later
+            # reads find the field; copy.copy / copy.deepcopy of the object carry the stored value along: models.deepcopy_value copies
+            # Obj.fields).  The store is a write to the object like any other: a frozen (input) object owes the frame obligation.
             f = self.func_from_py(v.func, r[2])
             val = self.invoke(f, [obj], {})
+            if getattr(obj, "frozen", False) and not self.spec_mode:
+                self.prove(self.site("frame-attr-write"), False, "frame", f"write to field {name} of an input object (functools.cached_property stores its value in the instance)")
             obj.fields[name] = val
             return val
         if kind == "raw" and callable(v) and isinstance(obj, Obj) and (("__items__" in obj.fields) or (name == "__init__" and isinstance(obj.cls, type) and issubclass(obj.cls, list))):
